@@ -322,7 +322,7 @@ Fixpoint md_ser_loop (base : Z) (digits : nat) (l : list pv) (value : Z) : res (
       | x :: t =>
           match x with
           | VInt z => if (0 <=? z) && (z <? base) then md_ser_loop base d t (value + z) else Ok None
-          | _ => Err TypeError
+          | _ => Ok None                               (* not isinstance(data[idx + i], int) *)
           end
       end
   end.
